@@ -10,6 +10,15 @@ RULE = ('generated calls (ints, floats, strs, tuples, None, nested lists) keyed 
 KMS = [('raw', {}), ('raw', {'typed': True}), ('string', {}), ('string', {'typed': True}), ('string', {'sentinel': True}), ('pickle', {}), ('picklep', {}),
        ('md5', {}), ('md5', {'typed': True, 'sentinel': True}), ('sha256', {}), ('string', {'flat': False}), ('pickle', {'flat': False, 'typed': True}),
        ('raw', {'sentinel': True})]
+import hashlib
+def _alt_algorithms():
+    """named algorithms outside hashlib.algorithms_guaranteed (served by OpenSSL through hashlib.new only)"""
+    out = []
+    for a in sorted(hashlib.algorithms_available - hashlib.algorithms_guaranteed):
+        try: hashlib.new(a, b'x').hexdigest(); out.append(a)
+        except Exception: pass
+    return [a for a in out if a.islower()][:2]
+KMS = KMS + [(a, {}) for a in _alt_algorithms()]
 VALS = ['1', '2.5', "'a'", 'None', '(1, 2)', '-7', "'x y'", '0.1', '[1, 2]', 'True', '10**12', "'z'"]
 VALS2 = [v for v in VALS if v != '[1, 2]']
 SEEDS = ['0', '1', '4242', 'random']
@@ -70,7 +79,8 @@ def explore(prop, tier, off=0):
         for si, hs in enumerate(SEEDS):
             rr = rng('session-perm', tier, off, si)
             its = [dict(it, calls=[permute(rr, c) if si else c for c in it['calls']]) for it in items]
-            jobs.append((dict(mode='keys', items=its, noise=si * 7), hs))
+            # every session also keys the calls in its own order: a key must not depend on what the process keyed before
+            jobs.append((dict(mode='keys', items=its, noise=si * 7, shuffle=si * 1000 + 17), hs))
         with ThreadPool(len(jobs)) as p:
             outs = p.map(lambda j: child(j[0], j[1], tmp), jobs)
         errors = [o['error'] for o in outs if 'error' in o]
@@ -115,8 +125,10 @@ def explore(prop, tier, off=0):
             path = os.path.join(tmp, 'arch%d' % i)
             rr = rng('session-perm2', tier, off, i)
             w = child(dict(mode='writer', item=it, path=path, noise=3), SEEDS[i % 4], tmp)
-            it2 = dict(it, calls=[permute(rr, c) for c in it['calls']])
+            # the later session spells keywords in another order AND makes the calls in the opposite order
+            it2 = dict(it, calls=[permute(rr, c) for c in it['calls']][::-1])
             rd = child(dict(mode='reader', item=it2, path=path, noise=10), SEEDS[(i + 1) % 4], tmp)
+            if 'calls' in rd: rd['calls'] = rd['calls'][::-1]
             return it, w, rd
         with ThreadPool(NPROC) as p:
             pairs = p.map(run_pair, list(enumerate(sess)))
